@@ -69,6 +69,11 @@ class AngularSpectrumPropagator(AgnosticOpticalElement):
                 k_squared = fourier_grid.as_('polar').r**2
                 k_z = np.sqrt(k**2 - k_squared + 0j)
 
+                # Evanescent waves (imaginary k_z) decay away from the input plane in either
+                # direction, so that propagation by -z is the adjoint of propagation by +z.
+                if self.distance < 0:
+                    k_z = np.conj(k_z)
+
                 return Field(np.exp(1j * k_z * self.distance), fourier_grid)
 
             def transfer_function(fourier_grid):
